@@ -10,7 +10,13 @@ LETTERS = 'abcxyzGC'
 NASTY = ["'", '/', ' ', 'a', 'é', '√', "''", "'/'", '\U0001F600', 'ß']
 
 
+# text that coincides with the format's own markers (a "TDS meter" channel, a unit called TDSh): payload is payload
+MAGIC_TEXT = ['TDSm', 'TDSh', 'TDSmeter', 'xTDSh', 'TDSmTDSm', '_index', '.tdms']
+
+
 def gen_name(rng, nasty):
+    if rng.random() < 0.03:
+        return rng.choice(MAGIC_TEXT)
     if nasty and rng.random() < 0.5:
         n = rng.randint(0, 4)
         return ''.join(rng.choice(NASTY) for _ in range(n))
@@ -24,6 +30,8 @@ def gen_text(rng, nbytes=None):
         r = rng.random()
         if r < 0.15:
             return ''
+        if r < 0.19:
+            return rng.choice(MAGIC_TEXT)
         n = rng.randint(1, 6) if r < 0.9 else rng.randint(100, 300)
         return ''.join(rng.choice(alphabet) for _ in range(n))
     out = []
